@@ -50,7 +50,7 @@ Drift(e) ==
   \cup (IF e.eqa # Cardinality(P.eqids) THEN {"eqids.size"} ELSE {})
   \cup (IF e.wca # Cardinality(P.wcache) THEN {"wcache.size"} ELSE {})
   \cup (IF (e.ama = 0) # (P.addrmap = {}) THEN {"addrmap.cleared"} ELSE {})
-  \cup (IF P.addrmap # {} /\ e.ama < e.amb THEN {"addrmap.kept"} ELSE {})
+  \cup (IF "addrmap" \notin H!ClearedAtEntry(e.e) /\ P.addrmap # {} /\ e.ama < e.amb THEN {"addrmap.kept"} ELSE {})
   \cup (IF e.ams > 0 /\ H!StaleAddr(S, vk, wk) = {} THEN {"addrmap.stale"} ELSE {})
   \cup (IF (e.ddba = 0) # (P.debugdb = {}) THEN {"debugdb.cleared"} ELSE {})
   \cup (IF e.ok /\ e.iok /\ Seeded(e) /\ e.rnga # e.irnga THEN {"rng"} ELSE {})
